@@ -604,7 +604,7 @@ func callSSA(i *interpreter, caller *frame, callpos token.Pos, fn *ssa.Function,
 		if pk == nil && fn.Origin() != nil {
 			pk = fn.Origin().Pkg
 		}
-		if pk != nil && pk.Pkg != nil && strings.HasPrefix(pk.Pkg.Path(), "github.com/MichaelMure/git-bug") {
+		if pk != nil && pk.Pkg != nil && (strings.HasPrefix(pk.Pkg.Path(), "github.com/MichaelMure/git-bug") || strings.HasPrefix(pk.Pkg.Path(), "github.com/go-git/go-git/v5/config")) {
 			info.statName = stripTypeArgs(fn.String())
 		}
 		i.fnInfos[fn] = info
